@@ -8,7 +8,7 @@ def check(ctx):
         "the driver, Span: Send as control) and four compile-fail witnesses with compiling twins confirm it through rustc "
         "itself; R2 span_lines is pushed only by register_span_line (called only from LocalCollector::new) and popped only "
         "by unregister_and_collect; collect_spans_and_token and LocalCollector::drop take() the handle before closing the "
-        "scope; LocalParentGuard::drop and LocalSpan::drop close their scope/span on every path from inner = Some; R3 "
+        "scope; LocalParentGuard::drop and LocalSpan::drop close their scope/span on every path from inner = Some, and capture_local_spans / LocalCollector::new open a scope on every path; R3 "
         "SpanQueue::finish_span restores next_parent_id from the finished span's stored parent, and SpanLine::{finish_span, "
         "with_properties, collect} act only for a handle of their own epoch; R4 the six LocalSpanStack operations reach "
         "SpanLine only across span_lines.last_mut() = Some.")
